@@ -17,31 +17,4 @@ COMMON_NOTE = ("Trusted: Coq 8.16.1 kernel (vm_compute, no native_compute); prop
                "(Print Assumptions parsed on every run); kernel extractor vlib/kernels.py; extraction with ExtrOcamlBasic only + ocaml/driver.ml; "
                "correspondence harness and its monkeypatches; external libraries modelled as parameters (DESIGN.md section 4). ")
 
-CHECKS = [
-    check("C20",
-          "Coq theorems over _dns.py with the sort key, f-strings, rstrip argument and resolve() arguments regenerated from the source: for every non-empty answer list (unbounded) the "
-          "selected record is a member with minimal priority and, among those, maximal weight; port/weight/priority copied, target stripped of trailing dots; selection is invariant under "
-          "permutation up to ties; the query name is prefix.domain or the bare prefix; sync and async lookups are the same normalised AST. Tie: kernels + correspondence on all multisets/permutations, both flavours.",
-          COMMON_NOTE + "Assumes sorted() stability (first minimiser) and the resolver contract; sync=async is a syntactic comparison backed by running both flavours.",
-          "Coq proof (induction over the answer list, lia over regenerated sort key) + exhaustive small-domain correspondence", "7/C20"),
-    check("C02",
-          "Coq theorems over the statement-level translation of compute_l2_key regenerated from _gkdi.py on every run, for an arbitrary KDF and key type: from every conforming envelope "
-          "covering an in-range request the result is the MS-GKDI chain key K2(l1,l2) (all 2^20 position pairs, all shapes, any root key/SD/L0/hash; fuel 32 suffices = termination); "
-          "a non-covering or out-of-range request is ValueError for every fuel (neither a key nor a loop). Tie: the control skeleton is translated from the source; compute_kdf_context / "
-          "compute_l1_key / kdf argument shapes by correspondence under the symbolic KDF (output bytes are derivation terms).",
-          COMMON_NOTE + "kdf is universally quantified; the statement translator of compute_l2_key is trusted and validated by the correspondence unit chain.l2.",
-          "Coq proof (loop invariants over regenerated control skeleton) + differential correspondence under symbolic crypto", "7/C02"),
-    check("C09",
-          "Coq theorems over the interval arithmetic regenerated from _get_protection_gke_from_cache on every run: for all t >= 0 the named (L0,L1,L2) are the floor formulas, "
-          "the named interval contains t and is the unique such in-range triple; unbounded in t. Tie to the code: the kernels ARE the code's expressions (translator), plus a "
-          "correspondence run of ncrypt_protect_secret under a patched clock on boundary tables against the extracted model.",
-          COMMON_NOTE + "Assumes time.time_ns() is the only clock read; float division is modelled as exactly rounded binary64 (validated against CPython by unit truediv.prim).",
-          "Coq proof (lia over regenerated kernels) + differential correspondence", "7/C09"),
-]
-
-ALL = ["C%02d" % i for i in range(1, 21)]
-NOT_APPLICABLE = [
-    {"property_id": p, "reason": "not claimed yet: the model and theorems for this property are still being built (see DESIGN.md section 9); the technique applies"}
-    for p in ALL if p not in [c["property_id"] for c in CHECKS]
-]
 NOTES = "All checks share ./check (vlib/runner.py). Evidence is rewritten by every run. known_findings.txt lists repaired defects (fixed:) and recorded findings."
